@@ -97,6 +97,23 @@ def pairs(tier):
             ('att-imm16-' + mn, '%s bx, {0}' % mn, False, '%sw ${0}, %%bx' % mn, True, None),
             ('att-imm8-' + mn, '%s cl, {0}' % mn, False, '%sb ${0}, %%cl' % mn, True, None),
         ]
+    # instructions with a sign-extended imm8 form next to the full-width one: the choice must depend on the value only,
+    # whatever the syntax and the sign convention (both spellings negative; Intel hexadecimal vs negative modulo 2^16)
+    for mn in ('add', 'cmp', 'and', 'sbb'):
+        P += [
+            ('att-neg-imm16-' + mn, '%s bx, -{0}' % mn, False, '%sw $-{0}, %%bx' % mn, True, 'lim15'),
+            ('att-neg-imm16-mem-' + mn, '%s WORD PTR [ebx+4], -{0}' % mn, False, '%sw $-{0}, 4(%%ebx)' % mn, True, 'lim15'),
+            ('att-neg-imm32-' + mn, '%s ebx, -{0}' % mn, False, '%sl $-{0}, %%ebx' % mn, True, 'lim31'),
+            ('att-neg-imm8-' + mn, '%s cl, -{0}' % mn, False, '%sb $-{0}, %%cl' % mn, True, 'lim7'),
+            ('att-alu-imm16-' + mn, '%s bx, {0}' % mn, False, '%sw ${0}, %%bx' % mn, True, 'lim15'),
+            ('alu-imm16-minus-' + mn, '%s bx, {0}' % mn, False, '%s bx, -{1}' % mn, False, 'neg16'),
+            ('att-alu-imm16-minus-' + mn, '%sw ${0}, %%bx' % mn, True, '%sw $-{1}, %%bx' % mn, True, 'neg16'),
+        ]
+    P += [
+        ('att-neg-imul16', 'imul bx, cx, -{0}', False, 'imulw $-{0}, %cx, %bx', True, 'lim15'),
+        ('att-neg-imul32', 'imul ebx, ecx, -{0}', False, 'imull $-{0}, %ecx, %ebx', True, 'lim31'),
+        ('att-neg-push', 'push -{0}', False, 'pushl $-{0}', True, 'lim31'),
+    ]
     P += [
         ('st0', 'fadd st, st(1)', False, 'fadd st(0), st(1)', False, None),
         ('st0b', 'fxch st(1)', False, 'fxch st(1)', False, None),
@@ -135,6 +152,10 @@ def check_pair(p, res, tier):
             n1 = SInt.var('n1', 1, 1 << (w - 1))
             eng.assume(n0.t == bvv(1 << w) - n1.t)
             syms = [n0, n1]
+        elif rel in ('lim7', 'lim15', 'lim31'):
+            # the number stays inside the operand's range (out-of-range numbers: the 'att-imm16' / 'att-imm8' pairs)
+            eng.assume(z3.ULE(n0.t, bvv(1 << int(rel[3:]))))
+            syms = [n0, SInt.var('n1', 0, (1 << 32) - 1)]
         elif rel == 'wrap':
             n1 = SInt.var('n1', 0, (1 << 35) - 1)
             eng.assume(z3.Extract(31, 0, n1.t) == z3.Extract(31, 0, n0.t))
